@@ -18,6 +18,7 @@ import Sck.Driver.FlowOps
 import Sck.Driver.DfsOps
 import Sck.Driver.BvnOps
 import Sck.Driver.IrvingOps
+import Sck.Driver.RuleOps
 import Sck.Model.Profile
 import Sck.Model.Preflib
 
@@ -451,7 +452,7 @@ def dispatch : String → Option (P String)
   | "generate" => some opGenerate
   | "preflib" => some opPreflib
   | "prefrow" => some opPrefRow
-  | op => ((dispatchDfs op).orElse (fun _ => dispatchBvn op)).orElse (fun _ => dispatchIrving op)
+  | op => (((dispatchDfs op).orElse (fun _ => dispatchBvn op)).orElse (fun _ => dispatchIrving op)).orElse (fun _ => dispatchRules op)
 
 def handle (line : String) : String :=
   let toks := (line.splitOn " ").map (fun s => s.trimAscii.toString) |>.filter (· ≠ "")
